@@ -6,7 +6,7 @@ import time as time_
 import re
 from stat import ST_DEV, ST_INO, ST_MTIME
 from circus import logger
-from circus.util import to_str
+from circus.util import to_str, to_bytes
 
 
 class _FileStreamBase(object):
@@ -35,7 +35,7 @@ class _FileStreamBase(object):
     def close(self):
         self._file.close()
 
-    def write_data(self, data):
+    def format_data(self, data):
         # data to write on file
         file_data = to_str(data['data'])
 
@@ -50,7 +50,12 @@ class _FileStreamBase(object):
             file_data = prefix + file_data.rstrip('\n')
             file_data = file_data.replace('\n', '\n' + prefix)
             file_data += '\n'
+        return file_data
 
+    def write_data(self, data):
+        self._write(self.format_data(data))
+
+    def _write(self, file_data):
         # writing into the file
         try:
             self._file.write(file_data)
@@ -102,10 +107,13 @@ class FileStream(_FileStreamBase):
         self._backup_count = int(backup_count)
 
     def __call__(self, data):
-        if self._should_rollover(data['data']):
+        # the size test is made on what is going to be written, i.e.
+        # including the time_format prefix of every line, in bytes
+        file_data = self.format_data(data)
+        if self._should_rollover(to_bytes(file_data)):
             self._do_rollover()
 
-        self.write_data(data)
+        self._write(file_data)
 
     def _do_rollover(self):
         """
